@@ -78,6 +78,37 @@ pub struct Director {
     pub states: std::collections::HashSet<u64>,
 }
 
+/// The future of one `pool.timeout_get(&timeouts)` call together with the pool handle and the timeouts it
+/// borrows (the call is made when this value is built, not when it is first polled).
+struct EagerGet {
+    // declared first: dropped before the two boxes it points into
+    fut: Option<Pin<Box<dyn Future<Output = Result<Wrapped, PoolError<ErrNo>>>>>>,
+    _pool: Box<MPool>,
+    _timeouts: Box<Timeouts>,
+}
+
+impl EagerGet {
+    fn new(pool: MPool, timeouts: Timeouts) -> EagerGet {
+        let pool = Box::new(pool);
+        let timeouts = Box::new(timeouts);
+        // SAFETY: both boxes live exactly as long as `fut` (same struct, `fut` is dropped first, the boxes are
+        // never moved out of or replaced), and a Box's contents do not move when the Box does.
+        let (p, t): (&'static MPool, &'static Timeouts) = unsafe { (&*(pool.as_ref() as *const MPool), &*(timeouts.as_ref() as *const Timeouts)) };
+        EagerGet { fut: Some(Box::pin(p.timeout_get(t))), _pool: pool, _timeouts: timeouts }
+    }
+}
+
+impl Future for EagerGet {
+    type Output = Result<Wrapped, PoolError<ErrNo>>;
+    fn poll(mut self: Pin<&mut Self>, cx: &mut std::task::Context<'_>) -> std::task::Poll<Self::Output> {
+        let r = self.fut.as_mut().expect("polled after completion").as_mut().poll(cx);
+        if r.is_ready() {
+            self.fut = None;
+        }
+        r
+    }
+}
+
 pub fn build_pool(w: &W) -> Result<MPool, String> {
     let cfg = lock(w).cfg.clone();
     // The same configuration reaches the builder in one of several ways: single setters in different orders
@@ -220,8 +251,22 @@ impl Director {
             let mut w = self.world();
             w.bump("gets_through_object_handle");
         }
+        // A call with per-call timeouts is sometimes *made* right here, i.e. the future `timeout_get()` returns
+        // exists from now on although nobody has polled it yet (a prepared future, a `select!` branch that loses).
+        let eager: Option<EagerGet> = match (kind.per_call, &via) {
+            (Some(ct), None) if t % 4 == 1 => {
+                let mut w = self.world();
+                w.bump("gets_made_before_first_poll");
+                drop(w);
+                Some(EagerGet::new(pool.clone(), Timeouts { wait: ct.wait, create: ct.create, recycle: ct.recycle }))
+            }
+            _ => None,
+        };
         let fut: Pin<Box<dyn Future<Output = Res>>> = Box::pin(async move {
             let inner = async {
+                if let Some(e) = eager {
+                    return e.await;
+                }
                 match (kind.per_call, via) {
                     (None, None) => pool.get().await,
                     (None, Some(h)) => h.get().await.map(Wrapped::from),
@@ -579,6 +624,7 @@ impl Director {
                     .find(|g| g.task == t && g.open)
                     .map(|g| g.kind.class())
                     .unwrap_or("in_callback"),
+                Phase::NotPolled => "before_first_poll",
                 _ => "wait_for_slot",
             }
         };
